@@ -1,3 +1,5 @@
+import Oidc.Proofs.CodeHandler
+import Oidc.Proofs.CodeStrings
 import Oidc.Shapes
 import Oidc.Proofs.Handler4
 import Oidc.Proofs.World4
@@ -143,5 +145,35 @@ theorem text_New_ok : Oidc.Shapes.Text_New := by unfold Oidc.Shapes.Text_New; rf
 /-! ## Program text of the helpers these theorems also rest on (constructors, accessors, token endpoint, configuration) -/
 theorem text_createStringMap_ok : Oidc.Shapes.Text_createStringMap := by unfold Oidc.Shapes.Text_createStringMap; rfl
 theorem text_Config_Validate_ok : Oidc.Shapes.Text_Config_Validate := by unfold Oidc.Shapes.Text_Config_Validate; rfl
+
+/-! ## The same statements about the code itself: the functions below are `Oidc.Generated.Code`, which `tools/go2lean` translates
+    from /repo's source, statement by statement, on every run (meaning of the Go constructs: `Oidc/GoLib.lean`) -/
+open Oidc.Generated Oidc.CodeRefine in
+/-- main.go `determineExcludedURL` as translated is the model's prefix test, whatever order Go ranges over the map in -/
+theorem code_determineExcludedURL (t : Go.Inst) (c : Cfg) (p : Str) (h : c.excluded = t.excludedURLs) :
+    Code.TraefikOidc_determineExcludedURL t p = excludedPath c p :=
+  determineExcludedURL_model t c p h
+
+open Oidc.Generated Oidc.CodeRefine in
+theorem code_determineExcludedURL_order (t t' : Go.Inst) (p : Str) (h : ∀ e, e ∈ t.excludedURLs ↔ e ∈ t'.excludedURLs) :
+    Code.TraefikOidc_determineExcludedURL t p = Code.TraefikOidc_determineExcludedURL t' p :=
+  determineExcludedURL_order t t' p h
+
+open Oidc.Generated Oidc.CodeRefine in
+/-- main.go `isUserAuthenticated` as translated is the model's `classify` (session through its getters, `parseJWT` and
+    `VerifyJWTSignatureAndClaims` through what the environment says about the token; seconds vs nanoseconds) -/
+theorem code_isUserAuthenticated (c : Cfg) (e : Env) (v : View) (t : Go.Inst) (sess : Go.Sess)
+    (hA : sess.GetAuthenticated = getAuth c.maxAge e.now v)
+    (hR : sess.GetRefreshToken = getToken e.decompress v .refresh)
+    (hT : sess.GetAccessToken = getToken e.decompress v .access)
+    (hG : t.refreshGracePeriod = c.grace * 1000000000)
+    (hP : (t.parseJWT sess.GetAccessToken).2.isNone = (e.tok sess.GetAccessToken).parses)
+    (hV : (t.VerifyJWTSignatureAndClaims (t.parseJWT sess.GetAccessToken).1 sess.GetAccessToken).isNone
+            = decide ((e.tok sess.GetAccessToken).verdict e.now = .accept))
+    (hE : (e.tok sess.GetAccessToken).verdict e.now = .accept →
+            ∃ x, Go.asF64 (Go.mapGet (t.parseJWT sess.GetAccessToken).1.Claims "exp".toList) = (x, true) ∧
+                 x.trunc = (e.tok sess.GetAccessToken).exp) :
+    Code.TraefikOidc_isUserAuthenticated (e.now * 1000000000) t sess = classify c e v :=
+  isUserAuthenticated_refines c e v t sess hA hR hT hG hP hV hE
 
 end Oidc.Props.C01
